@@ -205,7 +205,7 @@ func runC10(c *Ctx, r *Report) {
 		a, _ := sinkObligations(c, r, "R-C10.3", fn, false)
 		n += a
 	}
-	r.Floor("R-C10.3", "integer-tainted sinks in the slice helpers", n, 3)
+	r.Floor("R-C10.3", "integer-tainted sinks in the slice helpers", n, 2)
 }
 
 func infeasibleFacts(fs []lfact) bool {
